@@ -307,6 +307,12 @@ def check(case) -> core.Out:
         out.viol = chk_att(case["base"], case["idx"])
         out.nontrivial = len(case["idx"]) > 0
         out.sample = {"base": case["base"], "idx": case["idx"]}
+    elif k == "checksum-long":
+        import hashlib
+
+        ln = case["len"]
+        x = b"\xff" * ln if case["fill"] else hashlib.shake_256(bytes([ln & 0xFF])).digest(ln)
+        return check({"kind": "checksum", "x": x})
     elif k == "checksum":
         out.viol = chk_cksum(bytes(case["x"]))
         out.nontrivial = len(case["x"]) > 0
@@ -402,6 +408,17 @@ def run_shard(spec, ctx, acc):
                 case = {"kind": "checksum", "x": x}
                 out = core.checked(check, case)
                 out.classes = list(out.classes) + ["checksum-saturated"]
+                if core.handle(acc, out, case, known):
+                    return
+        # the helper takes any byte string: far beyond what a frame can carry
+        import hashlib
+
+        for ln in (65535, 65536, 65540, 131071, 131072, 131073, 200000, 262145) + ((1 << 20, 3000001) if tier != "quick" else ()):
+            for x in (hashlib.shake_256(bytes([ln & 0xFF])).digest(ln), b"\xff" * ln):
+                case = {"kind": "checksum", "x": x}
+                out = check(case)
+                out.classes = list(out.classes) + ["checksum-long-content"]
+                out.replay_case = {"kind": "checksum-long", "len": ln, "fill": x[:1] == b"\xff"}
                 if core.handle(acc, out, case, known):
                     return
         return
